@@ -387,7 +387,7 @@ func TestC03(t *testing.T) {
 		"plus rapid-drawn voteproofs with minority votes, arbitrary signer sets, arbitrary replayed voter subsets and stuck voteproofs with arbitrary vote splits and signer sets. Every pair of accepted voteproofs for the point with different majority facts is judged: equivocators = nodes signing two different facts for one and the same stage point in the two. " +
 		"non-trivial = distinct pair of accepted voteproofs with different majorities (the pair reached the predicate)")
 	r.Floor(20)
-	r.Assume("both voteproofs carry the network threshold t (a voteproof's own threshold field is not varied)",
+	r.Assume("both voteproofs carry the network threshold t (a voteproof's own threshold field is not varied; a stuck voteproof carries 100 as its type demands)",
 		"expel operations may carry the signature of any suffrage node (statement)",
 		"f = n - ceil(n*t/100) computed with exact integer arithmetic",
 		"a node that signs one fact per stage point is honest: its vote for another round/height/stage is not a second vote for this stage point",
